@@ -55,6 +55,30 @@ class _DtShim:
 _IMPORTS = None
 
 
+class _AsyncioShim:
+    """Stands in for the module `asyncio` inside hippolyzer.lib.client.hippo_client (like the `dt` shim of the circuit
+    module): everything is the real asyncio, except that a sleep() made BY THE CLIENT'S RESEND LOOP TASK does not wait for
+    real time but for the driver's next clock step -- one loop iteration per LoopTick, on virtual time."""
+
+    def __init__(self):
+        self.gate = None        # {"task": resend-loop task, "waiting": future the loop is parked on}
+
+    def __getattr__(self, name):
+        return getattr(asyncio, name)
+
+    async def sleep(self, delay, result=None):
+        g = self.gate
+        if g is not None and g.get("task") is not None and asyncio.current_task() is g["task"]:
+            fut = asyncio.get_event_loop().create_future()
+            g["waiting"] = fut
+            await fut
+            return result
+        return await asyncio.sleep(delay, result)
+
+
+_SHIM = _AsyncioShim()
+
+
 def _imports():
     global _IMPORTS
     if _IMPORTS is None:
@@ -64,7 +88,11 @@ def _imports():
         from hippolyzer.lib.base.message.udpserializer import UDPMessageSerializer
         from hippolyzer.lib.base.message.udpdeserializer import UDPMessageDeserializer
         from hippolyzer.lib.base.network.transport import AbstractUDPTransport
+        from hippolyzer.lib.client import hippo_client as hc_mod
         from hippolyzer.lib.client.hippo_client import HippoClient, HippoClientProtocol, HippoClientSession
+        if getattr(hc_mod, "asyncio", None) is not asyncio and not isinstance(getattr(hc_mod, "asyncio", None), _AsyncioShim):
+            raise MachineryError("hippo_client no longer reaches asyncio through its module attribute: adapt the clock bridge")
+        hc_mod.asyncio = _SHIM
 
         class RecTransport(AbstractUDPTransport):
             def __init__(self):
@@ -111,7 +139,7 @@ def reflect_window():
 class Driver:
     """One real client endpoint with one region circuit.  Must be created inside a running loop."""
 
-    def __init__(self, client, window=None, start="pending"):
+    def __init__(self, client, window=None, start="pending", budget=None):
         im = _imports()
         self.im = im
         self.clock = _Clock()
@@ -126,6 +154,9 @@ class Driver:
         # open_circuit() leaves the circuit not-yet-alive (is_alive = False) until the handshake is through: that is how
         # the client endpoint really starts.  start="alive": a bare Circuit as its constructor makes it (is_alive = True).
         self.start = start
+        self.client = client
+        self.budget = budget          # retry budget of the configuration (None: the code's default)
+        self.loop_task = None
         if start == "alive":
             from hippolyzer.lib.base.message.circuit import Circuit
             self.region.circuit = Circuit(("127.0.0.1", 0), PEER, self.transport)
@@ -313,22 +344,67 @@ class Driver:
                        Block("AgentData", SessionID=self.sess.id, AgentID=self.sess.agent_id),
                        Block("ChatData", Message="x", Channel=0, Type=1))
 
-    async def send_rel(self):
+    async def send_rel(self, carry=None):
+        """carry: the message object already has this packet ID when it is handed to send_reliable() (a relayed,
+        rebuilt or re-sent message)."""
         msg = self._chat()
+        if carry is not None:
+            msg.packet_id = carry
         st, r = common.impl_call(self.region.circuit.send_reliable, msg)
-        ev = {"ev": "SendRel"}
+        ev = {"ev": "SendRel", "carry": -1 if carry is None else carry}
         if st == "ok":
             self.futs.append((msg.packet_id, r))
+            if self.budget:
+                # the configuration's retry budget, set on the public resend record of this send (as harness/c05.py does)
+                try:
+                    self.region.circuit.unacked_reliable[(msg.direction, msg.packet_id)].tries_left = self.budget
+                except Exception as e:  # noqa
+                    raise MachineryError("cannot set the retry budget of a reliable send: %r" % (e,))
         else:
             ev["raised"] = r
         return await self._observe(ev)
 
-    async def send_unrel(self):
-        st, r = common.impl_call(self.region.circuit.send, self._chat())
-        ev = {"ev": "SendUnrel"}
+    async def send_unrel(self, carry=None):
+        msg = self._chat()
+        if carry is not None:
+            msg.packet_id = carry
+        st, r = common.impl_call(self.region.circuit.send, msg)
+        ev = {"ev": "SendUnrel", "carry": -1 if carry is None else carry}
         if st != "ok":
             ev["raised"] = r
         return await self._observe(ev)
+
+    async def loop_tick(self, ms):
+        """The clock advances, then the CLIENT's own resend loop (HippoClient._attempt_resends) runs one iteration."""
+        ev = {"ev": "LoopTick", "d": ms}
+        if self.loop_task is None:
+            if not hasattr(self.client, "_attempt_resends"):
+                raise MachineryError("HippoClient._attempt_resends is gone: adapt the resend-loop bridge")
+            self.client.session = self.sess
+            self.gate = {"task": None, "waiting": None}
+            _SHIM.gate = self.gate
+            self.loop_task = asyncio.ensure_future(self.client._attempt_resends())
+            self.gate["task"] = self.loop_task
+            # its first iteration runs at the current time (nothing is due: time only moves in ticks) and parks
+            await self._park()
+        self.clock.t = self.clock.t + datetime.timedelta(milliseconds=ms)
+        fut, self.gate["waiting"] = self.gate["waiting"], None
+        if fut is None or self.loop_task.done():
+            ev["raised"] = "the client's resend loop has stopped"
+        else:
+            fut.set_result(None)
+            await self._park()
+            if self.loop_task.done():
+                exc = None if self.loop_task.cancelled() else self.loop_task.exception()
+                ev["raised"] = "the client's resend loop stopped: %r" % (exc,)
+        return await self._observe(ev)
+
+    async def _park(self):
+        for _ in range(50):
+            await asyncio.sleep(0)
+            if self.gate["waiting"] is not None or self.loop_task.done():
+                return
+        raise MachineryError("the client's resend loop neither paused nor ended after one iteration")
 
     async def tick(self, ms):
         self.clock.t = self.clock.t + datetime.timedelta(milliseconds=ms)
@@ -354,6 +430,10 @@ class Driver:
         return await self._observe(ev)
 
     def close(self):
+        if self.loop_task is not None:
+            self.loop_task.cancel()
+            _SHIM.gate = None
+            self.client.session = None
         # futures that failed were never awaited: retrieve the exception so asyncio stays quiet
         for _, f in self.futs:
             if f.done() and not f.cancelled():
@@ -366,6 +446,7 @@ class Driver:
 
 _G: Graph = None
 _B1_WINDOW = None
+_B1_BUDGET = None
 _INIT_ALIVE = {}
 _WINDOW_REAL = 1000
 _SAMPLE_EVERY = 0
@@ -390,12 +471,14 @@ async def _do(drv: Driver, act, model_ids):
         return await drv.recv(act["p"], act["rel"], acks, act["form"])
     if n == "Stray":
         return await drv.stray([_real_id(m, model_ids, drv.issued) for m in sorted(act["acks"])])
-    if n == "SendRel":
-        return await drv.send_rel()
-    if n == "SendUnrel":
-        return await drv.send_unrel()
+    if n in ("SendRel", "SendUnrel"):
+        c = act.get("carry", -1)
+        carry = None if c < 0 else _real_id(c, model_ids, drv.issued)
+        return await (drv.send_rel(carry) if n == "SendRel" else drv.send_unrel(carry))
     if n == "Tick":
         return await drv.tick(act["d"])
+    if n == "LoopTick":
+        return await drv.loop_tick(act["d"])
     if n == "Subscribe":
         return await drv.subscribe(act["l"], act["k"])
     if n == "Ping":
@@ -416,6 +499,13 @@ def _compare(drv: Driver, act, obs, ev):
         bad.append(("exception escaped: " + ev["raised"].split(":")[0], None, ev["raised"]))
     if len(drv.issued) != len(mids):
         bad.append(("number of packet IDs issued", len(mids), len(drv.issued)))
+    else:
+        # the model's IDs are one instance of the law (strictly increasing while the circuit lives); the real ones must
+        # be ordered the same way
+        for i in range(len(mids) - 1):
+            if mids[i] < mids[i + 1] and not drv.issued[i] < drv.issued[i + 1]:
+                bad.append(("packet IDs strictly increasing", [mids[i], mids[i + 1]], [drv.issued[i], drv.issued[i + 1]]))
+                break
 
     def real(m):
         return _real_id(m, mids, drv.issued)
@@ -462,7 +552,7 @@ def _compare(drv: Driver, act, obs, ev):
         got_tx = sorted((t["id"], t["rel"], t["resent"]) for t in tx)
         if exp_tx != got_tx:
             clause = {"SendRel": "send: one reliable datagram", "SendUnrel": "send: one unreliable datagram",
-                      "Tick": "resend exactly the due pending sends", "Subscribe": "subscribe: nothing emitted",
+                      "Tick": "resend exactly the due pending sends", "LoopTick": "resend exactly the due pending sends", "Subscribe": "subscribe: nothing emitted",
                       "GoAlive": "handshake: nothing emitted", "Disconnect": "disconnect: nothing emitted"}[n]
             bad.append((clause, exp_tx, got_tx))
     # futures of all reliable sends
@@ -511,7 +601,7 @@ async def _replay_async(edge_ids):
             loop, ei = item if isinstance(item, tuple) else (None, item)
             e = g.edges[ei]
             path = (g.path_to(g.edges[loop]["_s"]) + [g.edges[loop]]) if loop is not None else g.path_to(e["_s"])
-            drv = Driver(client, _B1_WINDOW, _INIT_ALIVE[(path[0] if path else e)["_s"]])
+            drv = Driver(client, _B1_WINDOW, _INIT_ALIVE[(path[0] if path else e)["_s"]], _B1_BUDGET)
             mids = []
             evs = drv.start_events()
             for pe in path:
@@ -540,7 +630,7 @@ def _strip(evs):
     """Trace records: only what ClientCircuit_Trace reads."""
     res = []
     for ev in evs:
-        r = {k: v for k, v in ev.items() if k in ("ev", "p", "rel", "acks", "d", "fut", "match", "level", "kind", "how", "oldest", "pong_ok")}
+        r = {k: v for k, v in ev.items() if k in ("ev", "p", "rel", "acks", "d", "fut", "match", "level", "kind", "how", "oldest", "pong_ok", "carry")}
         r["tx"] = [{"id": t["id"], "rel": t["rel"], "resent": t["resent"], "acked": t["acked"], "peer": t["peer"]}
                    for t in ev["tx"]]
         if "dl" in ev:
@@ -559,10 +649,12 @@ def _mc_cfg(consts, spec, check=True, forms=False):
     c.setdefault("StartStates", '{"pending"}')     # as HippoClientSession.open_circuit creates it
     c.setdefault("Lifecycle", "FALSE")
     c.setdefault("MaxPings", 0)
+    c.setdefault("LoopTicks", "{}")
+    with_carry = c.pop("WithCarry", "FALSE")
     c.setdefault("Oldest", "{}")
     txt += "CONSTANTS " + " ".join("%s = %s" % kv for kv in c.items()) + "\n"
     if forms:
-        txt += 'CONSTANTS Forms = {"app", "pa", "mix"}\n'
+        txt += 'CONSTANTS Forms = {"app", "pa", "mix"} WithCarry = %s\n' % with_carry
     txt += "CONSTRAINT Bound\nVIEW View\n"
     if check:
         for i in ("TypeOK", "AckEveryReceipt", "DispatchAtMostOnce", "FirstCopyDispatched", "ProtectedOnce", "AckedWhilePending", "MemoryShape", "UnreliableAlwaysDelivered", "DispatchReachesAll",
@@ -596,8 +688,10 @@ class _Agg:
 
 
 def _b1(chk: Check, consts, label, sample_every, max_pairs=0):
-    global _G, _SAMPLE_EVERY, _B1_WINDOW, _INIT_ALIVE
+    global _G, _SAMPLE_EVERY, _B1_WINDOW, _INIT_ALIVE, _B1_BUDGET
     _B1_WINDOW = consts.get("Window")
+    _B1_BUDGET = consts.get("SetBudget")
+    consts = {k: v for k, v in consts.items() if k != "SetBudget"}
     res = common.model_check(chk, "ClientCircuit_MC", _mc_cfg(consts, "Spec"), "ClientCircuit_MC " + label)
     recs = common.export_records(chk, "ClientCircuit_MBT", _mc_cfg(consts, "MSpec", check=False, forms=True),
                                  "ClientCircuit_MBT " + label)
@@ -660,6 +754,18 @@ async def _walk(client, rng, length, every_ms):
     p_tick = rng.choice([0.1, 0.3, 0.6])
     p_sub = rng.choice([0.0, 0.05, 0.12])
     p_ping = rng.choice([0.0, 0.06, 0.15])
+    loop_ticks = rng.random() < 0.4        # the clock is driven through the client's resend loop / the circuit's own pass
+    p_carry = rng.choice([0.0, 0.3])
+
+    def pick_carry():
+        if rng.random() >= p_carry:
+            return None
+        r = rng.random()
+        if r < 0.4 and my_rel:
+            return rng.choice(my_rel[-4:])                         # the ID of an earlier (maybe unacked) reliable send
+        if r < 0.7 and drv.issued:
+            return rng.choice(drv.issued[-6:])
+        return (max(drv.issued) if drv.issued else -1) + rng.randrange(1, 5)
     ticks = [1, 500, every_ms // 2, every_ms - 1, every_ms, every_ms + 1, every_ms * 3]
 
     def pick_acks():
@@ -711,12 +817,12 @@ async def _walk(client, rng, length, every_ms):
                 oldest = rng.randrange(0, next_pid + 10)
             ev = await drv.ping(oldest)
         elif c < p_tick:
-            ev = await drv.tick(rng.choice(ticks))
+            ev = await (drv.loop_tick if loop_ticks else drv.tick)(rng.choice(ticks))
         elif c < p_tick + 0.12:
-            ev = await drv.send_rel()
+            ev = await drv.send_rel(pick_carry())
             my_rel += [t["id"] for t in ev["tx"] if t["rel"] and not t["resent"]]
         elif c < p_tick + 0.16:
-            ev = await drv.send_unrel()
+            ev = await drv.send_unrel(pick_carry())
         elif c < p_tick + 0.19:
             ev = await drv.stray(pick_acks())
         elif c < p_tick + 0.19 + p_sub:
@@ -867,6 +973,12 @@ def run(chk: Check):
         "a disconnected circuit is outside the property; ASSUMED as the unchanged code behaves: pending sends orphaned (futures "
         "stay pending), packet IDs start over, reception (ack, de-duplication, dispatch) continues; no send / clock step / "
         "subscription is driven on it",
+        "LoopTick = clock advance followed by ONE iteration of the client's own resend loop HippoClient._attempt_resends (its "
+        "pause is served by a stand-in for the module attribute `asyncio` of hippo_client, on virtual time); that loop skips "
+        "circuits that are not alive, so on a circuit whose handshake is not through sends only grow older (unchanged code, "
+        "assumed); the resendloop configuration sets ReliableResendInfo.tries_left = 2 on each send's public resend record",
+        "a message object handed to send()/send_reliable() may already carry a packet ID (earlier / equal / later than IDs "
+        "issued, or a still unacked send's ID); the law ignores it",
         "Tick = clock advance followed by Circuit.resend_unacked() (what HippoClient._attempt_resends calls)",
         "retry budget %d and resend period %d ms are read from the code, not fixed by the property" % (budget, every),
         "permanent subscribers are plain callables subscribed by name and by '*' at session and region level; further "
@@ -897,6 +1009,19 @@ def run(chk: Check):
     # handler; duplicates of the announced packet itself and of newer ones must still be suppressed
     traces += _b1(chk, dict(base, RelPids="{1,2}", UnrelPids="{}", MaxRcv=3, MaxSends=0, MaxUnrel=0, MaxAcks=0, Ticks="{}",
                             MaxPings=2 if quick else 3, Oldest="{0,1,2,3}", Depth=7 if quick else 9), "ping", 11)
+    # the client's own resend loop drives the clock: two reliable sends of different ages on a client-built circuit whose
+    # handshake completes; a small budget (set on the resend records) so that one send's exhaustion is followed by more
+    ltraces = _b1(chk, dict(base, Budget=2, SetBudget=2, RelPids="{}", UnrelPids="{1}", MaxRcv=1, MaxSends=2, MaxUnrel=0, MaxAcks=1,
+                            Ticks="{}", LoopTicks="{%d, %d}" % (half, every), StartStates='{"pending"}', Lifecycle="TRUE",
+                            Depth=8 if quick else 10), "resendloop", 23, max_pairs=8000 if quick else 0)
+    _b2(chk, ltraces, "b1-histories-resendloop", 2, every)
+    # ... and the default budget with nothing else happening
+    traces += _b1(chk, dict(base, RelPids="{}", UnrelPids="{}", MaxRcv=0, MaxSends=2, MaxUnrel=0, MaxAcks=0, Ticks="{}",
+                            LoopTicks="{%d, %d}" % (half, every), StartStates='{"alive"}', Depth=0), "resendloop-default", 17,
+                  max_pairs=6000 if quick else 0)
+    # the message object handed to send() / send_reliable() already carries a packet ID
+    traces += _b1(chk, dict(base, RelPids="{}", UnrelPids="{1}", MaxRcv=1, MaxSends=2, MaxUnrel=1, MaxAcks=1,
+                            Ticks="{%d}" % every, WithCarry="TRUE", Depth=5 if quick else 7), "carry", 7, max_pairs=6000 if quick else 0)
     # life of the circuit: created-not-yet-alive (as the endpoint makes it) or bare-alive, handshake completes, disconnect
     traces += _b1(chk, dict(base, RelPids="{1}", UnrelPids="{2}", MaxRcv=2, MaxSends=1 if quick else 2, MaxUnrel=1, MaxAcks=1,
                             Ticks="{%d}" % every, StartStates='{"pending", "alive"}', Lifecycle="TRUE", Depth=7 if quick else 8),
